@@ -348,7 +348,11 @@ func genKeyTree(r *Rng) *W {
 		size := map[int64]int{1: 32, 2: 48, 3: 66}[crv]
 		kv = append(kv, wInt(1, -1), wInt(2, -1), wInt(-1, -1), wInt(otherCurve(r, crv), -1))
 		if r.Chance(4, 5) {
-			kv = append(kv, wInt(-2, -1), wBstr(coordBytes(r, size), -1), wInt(-3, -1), wBstr(coordBytes(r, size), -1))
+			if r.Chance(1, 8) { // compressed point: y is the sign bit
+				kv = append(kv, wInt(-2, -1), wBstr(coordBytes(r, size), -1), wInt(-3, -1), wBool(r.Bool()))
+			} else {
+				kv = append(kv, wInt(-2, -1), wBstr(coordBytes(r, size), -1), wInt(-3, -1), wBstr(coordBytes(r, size), -1))
+			}
 		}
 		if r.Bool() {
 			kv = append(kv, wInt(-4, -1), wBstr(coordBytes(r, size), -1))
